@@ -227,4 +227,170 @@ theorem unfoldedWords_strip (c : Cls) (hc : ClsOK c) (s : Str) : unfoldedWords c
   unfold stripStr
   rw [splitW_dropWhile_rev c hc, splitW_dropWhile c hc]
 
+/-! ### runs of pieces -/
+
+/-- no two word pieces follow each other directly: between two words there is a blank run or a parenthesis -/
+def Sep : List Piece → Prop
+  | p :: q :: r => ¬ (p.kind = .word ∧ q.kind = .word) ∧ Sep (q :: r)
+  | _ => True
+
+theorem lexGo_head (c : Cls) (s : Str) : ∀ (pos st : Nat) (r : Str) (k : Kind),
+    ∃ t rest, lexGo c pos (some (st, r, k)) s = ⟨st, t, k⟩ :: rest := by
+  induction s with
+  | nil => intro pos st r k; exact ⟨_, _, rfl⟩
+  | cons x xs ih =>
+    intro pos st r k
+    simp only [lexGo]
+    split
+    · exact ih _ _ _ _
+    · exact ⟨_, _, rfl⟩
+
+theorem lexGo_sep (c : Cls) (s : Str) : ∀ (pos : Nat) (cur : Option (Nat × Str × Kind)), Sep (lexGo c pos cur s) := by
+  induction s with
+  | nil =>
+    intro pos cur
+    cases cur with
+    | none => simp [lexGo, Sep]
+    | some v => obtain ⟨st, r, k⟩ := v; simp [lexGo, Sep]
+  | cons x xs ih =>
+    intro pos cur
+    cases cur with
+    | none => simp only [lexGo]; exact ih _ _
+    | some v =>
+      obtain ⟨st, r, k⟩ := v
+      simp only [lexGo]
+      split
+      · exact ih _ _
+      · next hk =>
+        obtain ⟨t, rest, hh⟩ := lexGo_head c xs (pos + 1) pos [x] (kindOf c x)
+        rw [hh]
+        refine ⟨?_, by rw [← hh]; exact ih _ _⟩
+        rintro ⟨h1, h2⟩
+        simp only at h1 h2
+        exact hk ⟨by rw [h2, h1], Or.inl h1⟩
+
+theorem pieces_sep (c : Cls) (s : Str) : Sep (pieces c s) := lexGo_sep c s 0 none
+
+theorem sep_tail {p : Piece} {l : List Piece} (h : Sep (p :: l)) : Sep l := by
+  cases l with
+  | nil => trivial
+  | cons q r => exact h.2
+
+theorem sep_append_right : ∀ (a b : List Piece), Sep (a ++ b) → Sep b
+  | [], _, h => h
+  | _ :: a, b, h => sep_append_right a b (sep_tail h)
+
+theorem sep_append_left : ∀ (a b : List Piece), Sep (a ++ b) → Sep a
+  | [], _, _ => trivial
+  | [_], _, _ => trivial
+  | p :: q :: a, b, h => ⟨h.1, sep_append_left (q :: a) b h.2⟩
+
+def flatTexts (l : List Piece) : Str := (l.map (·.text)).flatten
+
+/-- the words of a run of consecutive pieces of a text are the texts of its non-blank pieces -/
+theorem splitW_run (c : Cls) : ∀ (M : List Piece), (∀ p ∈ M, PieceKindOK c p) → Sep M →
+    splitW c [] (flatTexts M) = (M.filter (fun p => p.kind != .blank)).map (·.text)
+  | [], _, _ => by simp [flatTexts, splitW, flushW]
+  | p :: M, hk, hs => by
+    have ih := splitW_run c M (fun q hq => hk q (List.mem_cons_of_mem _ hq)) (sep_tail hs)
+    obtain ⟨hne, hall, hpar⟩ := hk p (by simp)
+    have hflat : flatTexts (p :: M) = p.text ++ flatTexts M := by simp [flatTexts]
+    rw [hflat]
+    cases hkind : p.kind with
+    | blank =>
+      rw [splitW_blank_run c p.text (by intro x hx; rw [hall x hx, hkind]), ih]
+      simp [List.filter_cons, hkind]
+    | word =>
+      rw [splitW_word_run c p.text (by intro x hx; rw [hall x hx, hkind]) [] (flatTexts M)]
+      have hfl : flushW (p.text.reverse ++ []) = [p.text] := by
+        simp [flushW, hne]
+      have hnext : flatTexts M = [] ∨ ∃ x xs, flatTexts M = x :: xs ∧ ¬ kindOf c x = .word := by
+        cases M with
+        | nil => left; rfl
+        | cons q r =>
+          right
+          obtain ⟨qne, qall, _⟩ := hk q (by simp)
+          have hqk : ¬ q.kind = .word := fun h => hs.1 ⟨hkind, h⟩
+          cases hq : q.text with
+          | nil => exact absurd hq qne
+          | cons x xs =>
+            refine ⟨x, xs ++ flatTexts r, by simp [flatTexts, hq], ?_⟩
+            rw [qall x (by rw [hq]; simp)]; exact hqk
+      rw [splitW_flush c _ _ hnext, hfl, ih]
+      simp [List.filter_cons, hkind]
+    | lpar =>
+      have ht := kind_lpar_text c p ⟨hne, hall, hpar⟩ hkind
+      rw [ht]
+      simp only [List.cons_append, List.nil_append, splitW, true_or, ↓reduceIte, flushW, List.isEmpty_nil]
+      rw [ih]
+      simp [List.filter_cons, hkind, ht]
+    | rpar =>
+      have ht := kind_rpar_text c p ⟨hne, hall, hpar⟩ hkind
+      rw [ht]
+      simp only [List.cons_append, List.nil_append, splitW, or_true, ↓reduceIte, flushW, List.isEmpty_nil]
+      rw [ih]
+      simp [List.filter_cons, hkind, ht]
+
+/-! ### the slice of the text on a run of its pieces -/
+
+theorem contig_append (n : Nat) : ∀ (A B : List Piece), Contig n (A ++ B) → Contig n A ∧ Contig (n + (flatTexts A).length) B
+  | [], B, h => ⟨trivial, by simpa [flatTexts] using h⟩
+  | p :: A, B, h => by
+    obtain ⟨h1, h2, h3⟩ := h
+    obtain ⟨i1, i2⟩ := contig_append (n + p.text.length) A B h3
+    refine ⟨⟨h1, h2, i1⟩, ?_⟩
+    have : (flatTexts (p :: A)).length = p.text.length + (flatTexts A).length := by simp [flatTexts]
+    rw [this, ← Nat.add_assoc]; exact i2
+
+theorem contig_bounds (n : Nat) : ∀ (M : List Piece) (a b : Piece), M.head? = some a → M.getLast? = some b → Contig n M →
+    a.start = n ∧ b.stop + 1 = n + (flatTexts M).length ∧ 1 ≤ (flatTexts M).length
+  | [], _, _, h, _, _ => by simp at h
+  | [p], a, b, ha, hb, h => by
+    have e1 : p = a := by simpa using ha
+    have e2 : p = b := by simpa using hb
+    subst e1; subst e2
+    obtain ⟨h1, h2, _⟩ := h
+    have : 1 ≤ p.text.length := by cases hp : p.text <;> simp_all
+    simp [flatTexts, Piece.stop, h1]; omega
+  | p :: q :: r, a, b, ha, hb, h => by
+    have e1 : p = a := by simpa using ha
+    subst e1
+    obtain ⟨h1, h2, h3⟩ := h
+    have hb' : (q :: r).getLast? = some b := by simpa [List.getLast?_cons_cons] using hb
+    obtain ⟨_, i2, i3⟩ := contig_bounds (n + p.text.length) (q :: r) q b rfl hb' h3
+    have hl : (flatTexts (p :: q :: r)).length = p.text.length + (flatTexts (q :: r)).length := by simp [flatTexts]
+    exact ⟨h1, by rw [hl]; omega, by omega⟩
+
+theorem slice_run (c : Cls) (text : Str) (L1 M L2 : List Piece) (a b : Piece) (ha : M.head? = some a) (hb : M.getLast? = some b)
+    (h : pieces c text = L1 ++ M ++ L2) : slice text a.start b.stop = flatTexts M := by
+  have hcon := pieces_contig c text
+  have hcat := pieces_concat c text
+  rw [h] at hcon hcat
+  rw [List.append_assoc] at hcon
+  obtain ⟨_, c2⟩ := contig_append 0 L1 (M ++ L2) hcon
+  obtain ⟨c3, _⟩ := contig_append _ M L2 c2
+  obtain ⟨b1, b2, b3⟩ := contig_bounds _ M a b ha hb c3
+  have htext : text = flatTexts L1 ++ (flatTexts M ++ flatTexts L2) := by
+    rw [← hcat]; simp [flatTexts]
+  unfold slice
+  rw [b1]
+  have hlen : b.stop + 1 - (0 + (flatTexts L1).length) = (flatTexts M).length := by omega
+  rw [hlen, htext]
+  simp
+
+/-- a piece list with strictly increasing starts, cut at two of its members -/
+theorem split_between (ps : List Piece) (hinc : ps.Pairwise (fun a b => a.start < b.start)) (p q : Piece)
+    (hp : p ∈ ps) (hq : q ∈ ps) (hpq : p.start ≤ q.start) :
+    ∃ L1 M' L2, ps = L1 ++ (p :: M') ++ L2 ∧ (p :: M').getLast? = some q := by
+  obtain ⟨L1, R, rfl⟩ := List.append_of_mem hp
+  rw [List.pairwise_append] at hinc
+  simp only [List.mem_append, List.mem_cons] at hq
+  rcases hq with hq | rfl | hq
+  · have := hinc.2.2 q hq p (by simp); omega
+  · exact ⟨L1, [], R, by simp, rfl⟩
+  · obtain ⟨R1, R2, rfl⟩ := List.append_of_mem hq
+    refine ⟨L1, R1 ++ [q], R2, by simp, ?_⟩
+    rw [← List.cons_append, List.getLast?_append]
+    simp
+
 end LE
